@@ -61,7 +61,8 @@ impl FileReader for EmptyFileReader {
         } else if path != Self::get_file_path() {
             Err(FileReaderError::InternalFileNotFound)
         } else {
-            let uuid = uuid::Uuid::new_v4();
+            // The only file of this reader (0 is "no file")
+            let uuid = uuid::Uuid::from_u128(1);
             self.base_file_uuid = Some(uuid);
             Ok((uuid, self.base_file_contents.clone()))
         }
